@@ -87,13 +87,15 @@ func runC01(rc *RunCtx) {
 	forced, isForced := rc.Spec.Params["force"]
 	// weights:       fund swap melt resolve replay dup race checkstate restore restart clock adv internal rotate
 	weights := []int{2, 3, 3, 2, 4, 2, 6, 2, 1, 1, 1, 0, 1, 0}
+	// a quarter of the random runs additionally inject storage errors into ordinary operations
+	faults := !isForced && T.Chance("cfg.faults", 1, 4)
 	rc.StepLoop(3, 14, func(i int) {
 		m.step = i
 		kind := T.Pick("step.kind", weights...)
 		if isForced && i%2 == 1 {
 			kind = forced
 		}
-		m.Step(kind, false)
+		m.StepMaybeFaulted(kind, false, faults)
 	})
 	m.Finale()
 	rc.Nontrivial = rc.S.Stats["race_episode"] > 0 || rc.S.Stats["replay_spent"] > 0 || rc.S.Stats["replay_pending"] > 0 || rc.S.Stats["dup_in_request"] > 0
